@@ -165,7 +165,7 @@ pub fn to_text(name: &[u8]) -> Vec<u8> {
 
 pub struct Gen<'a> { pub r: &'a mut Rng, pub p: Vec<u8>, pub label_starts: Vec<usize>, pub compress: bool }
 
-const ALPHA: &[u8] = b"abcXYZ019-_";
+const ALPHA: &[u8] = b"abcXYZ019-_abcXYZ019-_[{@`";   // a few non-letters that differ only in bit 0x20 (case folding must not merge them)
 
 impl<'a> Gen<'a> {
     pub fn label(&mut self) -> Vec<u8> {
